@@ -192,7 +192,7 @@ void Executor::op_file(const Op& op, TaskCtx& t) {
         bool rat = o->s->getInt(P::i("readmode")) == 1 && o->s->getInt(P::i("syncmode")) != 0;
         o->lp = lp_from_sut(*o->s, rat);      // the model follows what the reader accepted; consistency is checked separately
         o->untrusted_model = g_nonfinite; for (int j = 0; j < o->s->numCols(); j++) if (std::isnan(o->s->lower(j)) || std::isnan(o->s->upper(j))) o->untrusted_model = true; for (int i = 0; i < o->s->numRows(); i++) if (std::isnan(o->s->lhs(i)) || std::isnan(o->s->rhs(i))) o->untrusted_model = true;
-        if (o->untrusted_model) count("read_accepted_nonfinite_numbers");
+        if (o->untrusted_model) { count("read_accepted_nonfinite_numbers"); viol("C13", "nonfinite_number_stored", "after readFile(." + kind + "): the reader succeeded and the LP holds a value that is infinite (beyond +/-infinity of SoPlex) or not a number"); }
         o->stopped_since_change = false; o->refReal.valid = o->refRat.valid = false;
         if (opt_.want("C13")) check_loaded_lp(*o, "after readFile(" + op.get("ext", kind) + ")");
       } else {
@@ -230,9 +230,7 @@ void Executor::op_file(const Op& op, TaskCtx& t) {
     auto& s = *o->s;
     (void)s.numRows(); (void)s.numCols();
     if (o->inconsistent) { count("post_skipped_inconsistent_lp"); s.clearLPReal(); o->inconsistent = false; o->lp = lp_from_sut(s, false); return; }
-    // known finding (skip entry): real-mode readers accept non-finite numbers; solving such an LP runs into SIGFPE / negative array indices.
-    // The entry is demonstrated from its replay plan on every run; workers do not solve those LPs again.
-    if (o->untrusted_model && known_skip("C13", "sanitizer", {{"frame", "__pthread_kill_implementation"}})) { count("post_skipped_nonfinite_model"); s.clearLPReal(); o->untrusted_model = false; o->lp = lp_from_sut(s, false); return; }
+    // (real-mode readers used to accept non-finite numbers; repaired in /repo - such an LP is now reported by nonfinite_number_stored and solved like any other)
     uint32_t savemask = t.bug_mask; t.bug_mask = 0;
     op_begin(t);
     s.setInt(P::i("iterlimit"), 2000); o->pm.i[P::i("iterlimit")] = 2000;
@@ -255,6 +253,8 @@ void Executor::op_file(const Op& op, TaskCtx& t) {
       double ov1 = st1 == sut::ST_OPTIMAL ? s.objValue() - s.getReal(P::r("obj_offset")) : 0, ov2 = st2 == sut::ST_OPTIMAL ? w.objValue() - w.getReal(P::r("obj_offset")) : 0;
       if (op.geti("strict", 1) == 0) { if (!(st1 == sut::ST_OPTIMAL || st1 == sut::ST_INFEASIBLE || st1 == sut::ST_UNBOUNDED || st1 == sut::ST_INForUNBD || st1 == sut::ST_ABORT_ITER || st1 == sut::ST_ABORT_TIME || st1 == sut::ST_ABORT_VALUE || st1 == sut::ST_ABORT_CYCLING || st1 == sut::ST_SINGULAR)) viol("C13", "object_unusable_after_read", std::string("after loading faulted settings the object cannot solve a good LP: ") + sut::status_name(st1)); }
       else if (st1 == sut::ST_ABORT_CYCLING || st1 == sut::ST_SINGULAR || st2 == sut::ST_ABORT_CYCLING || st2 == sut::ST_SINGULAR) count("post_solver_gave_up");
+      else if (st1 != st2 && [&] { const model::RefResult rf = model::ref_solve(real_image(plan_.lps[gk]));   // knife-edge LPs: the two objects hold different row splits of the same LP (file vs API) and may land on either side
+                                   return (rf.status == model::REF_OPTIMAL && (rf.feas_fragile || rf.bounded_fragile)) || (rf.status != model::REF_OPTIMAL && rf.status != model::REF_UNKNOWN && rf.margin < 1e-4); }()) count("fragile_skipped");
       else if (st1 != st2 || (st1 == sut::ST_OPTIMAL && fabs(ov1 - ov2) > 1e-6 * (1 + fabs(ov2)))) {
         std::ostringstream d; d << "after the faulted read the object solves the good LP to " << sut::status_name(st1) << " " << (st1 == sut::ST_OPTIMAL ? dstr(s.objValue()) : "") << ", a fresh object to " << sut::status_name(st2) << " " << (st2 == sut::ST_OPTIMAL ? dstr(w.objValue()) : "");
         viol("C13", "object_unusable_after_read", d.str());
